@@ -25,7 +25,7 @@ def truncation_worlds(rng, nodes):
                 r = dict(fr)
                 r["cut"] = cut
                 worlds.append({"name": "trunc-%d-%s-%d" % (pi, fr["op"], cut), "aw": True, "nodes": nodes,
-                               "conns": [{"id": 1, "reqs": pre + [r]}], "probe": True})
+                               "conns": [{"id": 1, "reqs": pre + [r]}], "probe": True, "readChunk": rng.choice([0, 3])})
     return worlds
 
 
@@ -75,7 +75,8 @@ def run(tier, seed, replay=None):
             nodes_r = srv.basic_world(rng)
             aw = rng.random() < 0.6
             conns = [{"id": 1, "reqs": srv.random_session(rng, nodes_r, nreq=40, aw=aw)}]
-            worlds.append({"name": "rand%d" % i, "aw": aw, "nodes": nodes_r, "conns": conns, "probe": True})
+            worlds.append({"name": "rand%d" % i, "aw": aw, "nodes": nodes_r, "conns": conns, "probe": True,
+                           "readChunk": rng.choice([0, 0, 1, 7, 100])})
 
         # batches keep TLC's trace files manageable
         B = 4000
